@@ -225,6 +225,29 @@ ToolRes run_tool(std::string const &tool, std::vector<std::string> const &args, 
     slurp(fo, r.out); slurp(fe, r.err);
     return r;
 }
+
+// "tasgrid -help" documents the commands, the options and their shorthands: parsed once per process
+std::map<std::string, std::vector<std::string>> const& help_map(std::string const &tool, std::string const &dir){
+    static std::map<std::string, std::vector<std::string>> m;
+    static bool done = false;
+    if (done) return m;
+    done = true;
+    ToolRes t = run_tool(tool, {"-help"}, dir, 0, 60);
+    std::istringstream ss(t.out); std::string line;
+    while (std::getline(ss, line)){
+        if (line.size() < 3 || line[0] != ' ' || line[1] != '-') continue;
+        Tok tk(line);
+        if (tk.t.size() < 2 || tk.t[1][0] != '-') continue;
+        std::string sh = tk.t[1]; size_t a = 0;
+        while (a <= sh.size()){
+            size_t b = sh.find(',', a); if (b == std::string::npos) b = sh.size();
+            std::string one = sh.substr(a, b - a);
+            if (one.size() > 1 && one[0] == '-' && one != tk.t[0]) m[tk.t[0]].push_back(one);
+            a = b + 1;
+        }
+    }
+    return m;
+}
 // stable class of a death by signal: sanitizer kind / exception type + first frame inside the library or tool sources
 std::string abort_class(ToolRes const &t){
     std::string const &e = t.err;
@@ -288,6 +311,7 @@ enum OutKind{ out_none = 0, out_dense, out_sparse, out_stdout_text, out_text_fil
 struct Plan{
     std::string cmd;                 // spelling used on the command line
     std::string name;                // canonical name (keys, counters)
+    std::string cls;                 // class used in outcome keys (default: name)
     std::string keyfam;              // grid family used in keys (default: family of the script's grid)
     std::vector<std::string> opts;   // options after the grid file
     bool uses_grid = true;           // command works on -gridfile
@@ -329,6 +353,14 @@ struct Script{
         return p;
     }
     std::string pick(std::initializer_list<const char*> names){ std::vector<std::string> v(names.begin(), names.end()); return rng.pick(v); }
+    // spelling of a command or option: the documented long name or one of the shorthands that the tool's own help text lists for it
+    std::map<std::string, std::vector<std::string>> const *help = nullptr;
+    std::string sp(std::string const &long_name, std::initializer_list<const char*> extra = {}){
+        std::vector<std::string> v = {long_name};
+        if (help){ auto it = help->find(long_name); if (it != help->end()) v.insert(v.end(), it->second.begin(), it->second.end()); }
+        for(auto e : extra) v.push_back(e);
+        return rng.pick(v);
+    }
     std::string script_json() const{
         std::string s = "[";
         for(size_t i=0; i<lines.size(); i++) s += (i ? "," : "") + jstr(lines[i]);
@@ -371,11 +403,11 @@ void Script::exec(Plan &p){
     std::vector<std::string> args;
     args.push_back(p.cmd);
     if (p.uses_grid || p.creates){
-        if (p.positional_gf) args.push_back(gft); else{ args.push_back(pick({"-gf", "-gridfile"})); args.push_back(gft); }
+        if (p.positional_gf) args.push_back(gft); else{ args.push_back(sp("-gridfile")); args.push_back(gft); }
     }
     for(auto const &o : p.opts) args.push_back(o);
-    if (want_file){ args.push_back(pick({"-of", "-outputfile", "-outfile"})); args.push_back(of); }
-    if (use_print) args.push_back(pick({"-p", "-print"}));
+    if (want_file){ args.push_back(sp("-outputfile")); args.push_back(of); }
+    if (use_print) args.push_back(sp("-print"));
     if (ascii) args.push_back("-ascii");
     // shuffle nothing: option order is irrelevant to the parser except for repeated options, which are not generated
     std::string line = "tasgrid " + join(args);
@@ -426,8 +458,10 @@ void Script::exec(Plan &p){
         c.count("tool_rejected:" + p.name);
         std::string what, ex;
         { TasmanianSparseGrid copy; if (has_grid && !p.creates) copy.copyGrid(G); Out o; ex = run_api(copy, o, false, what); }
-        if (ex.empty())
-            viol("outcome:tool-rejects-api-accepts:" + p.name + ":" + error_class(t), J().i("step", step).i("exit", t.code).str("stderr", t.err.substr(0, 600)).str("stdout", t.out.substr(0, 200)).b("generator_says_valid", p.valid));
+        if (ex.empty()){
+            std::string ec = error_class(t); // the tool's own message is the class; the command only when there is no message
+            viol("outcome:tool-rejects-api-accepts:" + ((ec == "no-error-message") ? ec + ":" + p.name : ec), J().i("step", step).i("exit", t.code).str("stderr", t.err.substr(0, 600)).str("stdout", t.out.substr(0, 200)).b("generator_says_valid", p.valid).str("command", p.name));
+        }
         std::string now;
         if (has_grid && p.uses_grid && !p.creates && slurp(gft, now) && now != tool_grid_bytes){
             if (same_grid_content(gft, tool_grid_bytes, path("scratch_grid"))){ c.count("grid_file_rewritten_by_rejected_step:" + p.name); tool_grid_bytes = now; }
@@ -642,31 +676,31 @@ Mat quadrature_matrix(TasmanianSparseGrid const &g){
 // options of the make commands / make quadrature for a configuration
 void make_options(Script &s, Cfg const &cf, Plan &p, bool quadrature){
     auto &o = p.opts;
-    o.push_back(s.pick({"-dim", "-dimensions"})); o.push_back(std::to_string(cf.dims));
-    if (!quadrature){ o.push_back(s.pick({"-out", "-outputs"})); o.push_back(std::to_string(cf.outs)); }
-    o.push_back(s.pick({"-dt", "-depth"})); o.push_back(std::to_string(cf.depth));
+    o.push_back(s.sp("-dimensions")); o.push_back(std::to_string(cf.dims));
+    if (!quadrature){ o.push_back(s.sp("-outputs")); o.push_back(std::to_string(cf.outs)); }
+    o.push_back(s.sp("-depth")); o.push_back(std::to_string(cf.depth));
     bool has_type = (cf.family == fam_global || cf.family == fam_sequence || cf.family == fam_fourier);
-    if (has_type){ o.push_back(s.pick({"-tt", "-type"})); o.push_back(tname(cf.type)); }
-    if (cf.family == fam_localp || cf.family == fam_wavelet){ o.push_back(s.pick({"-or", "-order"})); o.push_back(std::to_string(cf.order)); }
+    if (has_type){ o.push_back(s.sp("-type")); o.push_back(tname(cf.type)); }
+    if (cf.family == fam_localp || cf.family == fam_wavelet){ o.push_back(s.sp("-order")); o.push_back(std::to_string(cf.order)); }
     if (cf.family == fam_global || cf.family == fam_sequence || cf.family == fam_localp || quadrature){
-        o.push_back(s.pick({"-1d", "-onedim"})); o.push_back(cf.custom ? "custom-tabulated" : rname(cf.rule));
+        o.push_back(s.sp("-onedim")); o.push_back(cf.custom ? "custom-tabulated" : rname(cf.rule));
     }
     if (cf.family == fam_global && !cf.custom && uses_alpha(cf.rule)){
         o.push_back("-alpha"); o.push_back(num17(cf.alpha)); if (!float_exact(cf.alpha)) p.real_opts.push_back("alpha");
         if (uses_beta(cf.rule)){ o.push_back("-beta"); o.push_back(num17(cf.beta)); if (!float_exact(cf.beta)) p.real_opts.push_back("beta"); }
     }
-    if (cf.custom){ o.push_back(s.pick({"-cf", "-customfile"})); o.push_back(cf.custom_file); }
-    if (has_type && !cf.aw.empty()){ o.push_back(s.pick({"-af", "-anisotropyfile"})); o.push_back(s.put(row_of_ints(cf.aw), "aniso")); }
+    if (cf.custom){ o.push_back(s.sp("-customfile")); o.push_back(cf.custom_file); }
+    if (has_type && !cf.aw.empty()){ o.push_back(s.sp("-anisotropyfile")); o.push_back(s.put(row_of_ints(cf.aw), "aniso")); }
     if (!cf.ta.empty()){
         Mat m(cf.dims, 2);
         for(int j=0; j<cf.dims; j++){ m.v[(size_t)(2 * j)] = cf.ta[(size_t) j]; m.v[(size_t)(2 * j + 1)] = cf.tb[(size_t) j]; }
-        o.push_back(s.pick({"-tf", "-transformfile"})); o.push_back(s.put(m, "transform"));
+        o.push_back(s.sp("-transformfile")); o.push_back(s.put(m, "transform"));
     }
     if (!cf.conformal.empty()){
-        o.push_back(s.pick({"-ct", "-conformaltype"})); o.push_back("asin");
-        o.push_back("-conformalfile"); o.push_back(s.put(row_of_ints(cf.conformal), "conformal"));
+        o.push_back(s.sp("-conformaltype")); o.push_back("asin");
+        o.push_back(s.sp("-conformalfile")); o.push_back(s.put(row_of_ints(cf.conformal), "conformal"));
     }
-    if (!cf.limits.empty()){ o.push_back(s.pick({"-lf", "-levellimitsfile"})); o.push_back(s.put(row_of_ints(cf.limits), "limits")); }
+    if (!cf.limits.empty()){ o.push_back(s.sp("-levellimitsfile")); o.push_back(s.put(row_of_ints(cf.limits), "limits")); }
 }
 
 std::string custom_rule_into(Script &s){
@@ -698,9 +732,8 @@ struct Gen{
     Plan make_plan(Cfg const &cf){
         Plan p;
         static const char *longn[] = {"-makeglobal", "-makesequence", "-makelocalpoly", "-makewavelet", "-makefourier"};
-        static const char *shortn[] = {"-mg", "-ms", "-mp", "-mw", "-mf"};
         static const char *canon[] = {"makeglobal", "makesequence", "makelocalpoly", "makewavelet", "makefourier"};
-        p.cmd = rng.coin() ? longn[cf.family] : shortn[cf.family]; p.name = canon[cf.family];
+        p.cmd = s.sp(longn[cf.family]); p.name = canon[cf.family]; p.cls = "make";
         p.creates = true; p.uses_grid = false; p.mutates = true; p.out = out_dense;
         make_options(s, cf, p, false);
         p.keyfam = fam_name(cf.family);
@@ -709,7 +742,7 @@ struct Gen{
     }
     Plan quadrature_plan(Cfg const &cf){
         Plan p;
-        p.cmd = rng.coin() ? "-makequadrature" : "-mq"; p.name = "makequadrature";
+        p.cmd = s.sp("-makequadrature"); p.name = "makequadrature";
         p.creates = false; p.uses_grid = false; p.mutates = false; p.out = out_dense;
         make_options(s, cf, p, true);
         p.keyfam = fam_name(cf.family);
@@ -724,14 +757,15 @@ struct Gen{
 
     // ----- commands on an existing grid -----
     Plan simple_const(std::string name, std::initializer_list<const char*> spell, std::function<void(TasmanianSparseGrid&, Out&)> f, OutKind out = out_dense){
-        Plan p; p.name = name; std::vector<std::string> v(spell.begin(), spell.end()); p.cmd = rng.pick(v); p.out = out;
+        Plan p; p.name = name; p.cmd = s.sp(*spell.begin()); p.out = out;
         p.api = [f](TasmanianSparseGrid &g, Out &o, bool){ f(g, o); };
         return p;
     }
     Plan getpoints(){ return simple_const("getpoints", {"-getpoints", "-gp"}, [](TasmanianSparseGrid &g, Out &o){ o.m = points_matrix(g, g.getPoints()); }); }
     Plan getneeded(){
-        Plan p = simple_const("getneeded", {"-getneeded", "-gn"}, [](TasmanianSparseGrid &g, Out &o){ o.m = points_matrix(g, g.getNeededPoints()); });
-        if (rng.coin(0.04)){ p.cmd = "-getneededpoints"; p.name = "getneededpoints"; } // the name in the help text and in InterfaceCLI.md
+        // -getneededpoints is the name in the help text and in InterfaceCLI.md, -getneeded the one the MATLAB interface uses
+        Plan p = simple_const("getneeded", {"-getneededpoints"}, [](TasmanianSparseGrid &g, Out &o){ o.m = points_matrix(g, g.getNeededPoints()); });
+        if (rng.coin(0.4)) p.cmd = "-getneeded";
         return p;
     }
     Plan getquadrature(){ return simple_const("getquadrature", {"-getquadrature", "-gq"}, [](TasmanianSparseGrid &g, Out &o){ o.m = quadrature_matrix(g); }); }
@@ -781,7 +815,7 @@ struct Gen{
         Plan p = simple_const("getpoly", {"-getpoly"}, [interp](TasmanianSparseGrid &g, Out &o){
             auto v = g.getGlobalPolynomialSpace(interp); int d = g.getNumDimensions();
             o.m = Mat((long)(v.size() / (size_t) d), d); for(size_t i=0; i<v.size(); i++) o.m.v[i] = (double) v[i]; });
-        p.opts = {s.pick({"-tt", "-type"}), tname(t)};
+        p.opts = {s.sp("-type"), tname(t)};
         return p;
     }
     Plan getanisotropy(){
@@ -792,8 +826,8 @@ struct Gen{
         Plan p = simple_const("getanisotropy", {"-getanisotropy", "-ga"}, [t, out](TasmanianSparseGrid &g, Out &o){
             auto w = g.estimateAnisotropicCoefficients(t, out); o.m = Mat((long) w.size(), 1); for(size_t i=0; i<w.size(); i++) o.m.v[i] = (double) w[i]; });
         p.vector_like = true;
-        p.opts = {s.pick({"-tt", "-type"}), tname(t)};
-        if (pass_out){ p.opts.push_back(s.pick({"-rout", "-refout"})); p.opts.push_back(std::to_string(out)); }
+        p.opts = {s.sp("-type"), tname(t)};
+        if (pass_out){ p.opts.push_back(s.sp("-refout")); p.opts.push_back(std::to_string(out)); }
         return p;
     }
     // commands that read an x file
@@ -803,10 +837,9 @@ struct Gen{
         Plan p;
         static const char *names[] = {"evaluate", "differentiate", "getinterweights", "getdiffweights", "evalhierarchyd", "evalhierarchys"};
         static const char *l[] = {"-evaluate", "-differentiate", "-getinterweights", "-getdiffweights", "-evalhierarchyd", "-evalhierarchys"};
-        static const char *sh[] = {"-e", "-d", "-gi", "-gd", "-ehd", "-ehs"};
-        p.name = names[which]; p.cmd = rng.coin() ? l[which] : sh[which];
+        p.name = names[which]; p.cmd = s.sp(l[which]);
         p.out = (which == 5) ? out_sparse : out_dense;
-        p.opts = {s.pick({"-xf", "-xfile"}), s.put(Mat(n, d, x), "x")};
+        p.opts = {s.sp("-xfile"), s.put(Mat(n, d, x), "x")};
         p.api = [which, x, n, d](TasmanianSparseGrid &g, Out &o, bool){
             int np = g.getNumPoints(), m = g.getNumOutputs();
             auto row = [&](int i){ return std::vector<double>(x.begin() + (long)((size_t) i * (size_t) d), x.begin() + (long)((size_t)(i + 1) * (size_t) d)); };
@@ -827,8 +860,8 @@ struct Gen{
         std::vector<double> pts = (G().getNumNeeded() > 0) ? G().getNeededPoints() : G().getLoadedPoints();
         gen_counter++;
         std::vector<double> v = model_vals(pts, d, m, gen_counter, vmode);
-        Plan p; p.name = "loadvalues"; p.cmd = rng.coin() ? "-loadvalues" : "-l"; p.mutates = true;
-        p.opts = {s.pick({"-vf", "-valsfile"}), s.put(Mat((long)(pts.size() / (size_t) d), m, v), "vals")};
+        Plan p; p.name = "loadvalues"; p.cmd = s.sp("-loadvalues"); p.mutates = true;
+        p.opts = {s.sp("-valsfile"), s.put(Mat((long)(pts.size() / (size_t) d), m, v), "vals")};
         p.api = [v](TasmanianSparseGrid &g, Out&, bool){ g.loadNeededValues(v); };
         return p;
     }
@@ -837,9 +870,8 @@ struct Gen{
         bool four = G().isFourier();
         Mat cm(n, (long) m * (four ? 2 : 1));
         for(auto &x : cm.v) x = rng.uni(-1.0, 1.0);
-        Plan p; p.name = "setcoefficients"; p.cmd = "-setcoefficients"; p.mutates = true;
-        if (rng.coin(0.04)){ p.cmd = "-sc"; p.name = "setcoefficients-sc"; } // the shorthand listed by the help text (shared with -setconformal)
-        p.opts = {s.pick({"-vf", "-valsfile"}), s.put(cm, "coeff")};
+        Plan p; p.name = "setcoefficients"; p.cmd = s.sp("-setcoefficients"); p.mutates = true;
+        p.opts = {s.sp("-valsfile"), s.put(cm, "coeff")};
         p.api = [cm, n, m, four](TasmanianSparseGrid &g, Out&, bool){
             if (!four){ g.setHierarchicalCoefficients(cm.v); return; }
             // the command line takes interleaved complex numbers (InterfaceCLI.md, tsgLoadHCoefficients.m), the API takes the real block followed by the imaginary block
@@ -862,19 +894,19 @@ struct Gen{
         Plan p; p.mutates = true; p.out = out_dense;
         int m = G().getNumOutputs();
         bool aniso = (kind == 0) || (kind == 2 && aniso_family()); // InterfaceCLI.md: -refine is anisotropic on Global, Sequence and Fourier grids
-        if (kind == 0){ p.name = "refineaniso"; p.cmd = rng.coin() ? "-refineaniso" : "-ra"; }
-        else if (kind == 1){ p.name = "refinesurp"; p.cmd = rng.coin() ? "-refinesurp" : "-rs"; }
-        else{ p.name = "refine"; p.cmd = rng.coin() ? "-refine" : "-r"; }
+        if (kind == 0){ p.name = "refineaniso"; p.cmd = s.sp("-refineaniso"); }
+        else if (kind == 1){ p.name = "refinesurp"; p.cmd = s.sp("-refinesurp"); }
+        else{ p.name = "refine"; p.cmd = s.sp("-refine"); }
         std::vector<int> limits; if (rng.coin(0.3)) limits = some_limits();
         if (aniso){
             TypeDepth t = rng.pick(aniso_types);
             int ming = rng.range(1, 8); bool pass_ming = rng.coin(0.7); if (!pass_ming) ming = 1; // "defaults to 1"
             int out = G().isGlobal() ? rng.range(0, m - 1) : rng.range(-1, m - 1);
             bool pass_out = G().isGlobal() || out != -1 || rng.coin(); // "for sequence grids defaults to -1"
-            p.opts = {s.pick({"-tt", "-type"}), tname(t)};
-            if (pass_ming){ p.opts.push_back(s.pick({"-ming", "-mingrowth"})); p.opts.push_back(std::to_string(ming)); }
-            if (pass_out){ p.opts.push_back(s.pick({"-rout", "-refout"})); p.opts.push_back(std::to_string(out)); }
-            if (!limits.empty()){ p.opts.push_back(s.pick({"-lf", "-levellimitsfile"})); p.opts.push_back(s.put(row_of_ints(limits), "limits")); }
+            p.opts = {s.sp("-type"), tname(t)};
+            if (pass_ming){ p.opts.push_back(s.sp("-mingrowth")); p.opts.push_back(std::to_string(ming)); }
+            if (pass_out){ p.opts.push_back(s.sp("-refout")); p.opts.push_back(std::to_string(out)); }
+            if (!limits.empty()){ p.opts.push_back(s.sp("-levellimitsfile")); p.opts.push_back(s.put(row_of_ints(limits), "limits")); }
             p.api = [t, ming, out, limits](TasmanianSparseGrid &g, Out &o, bool){ g.setAnisotropicRefinement(t, ming, out, limits); o.m = points_matrix(g, g.getNeededPoints()); };
         }else{
             double tol = std::pow(10.0, rng.uni(-5.0, -0.5));
@@ -884,17 +916,17 @@ struct Gen{
             bool local = G().isLocalPolynomial() || G().isWavelet();
             int out = (G().isGlobal()) ? rng.range(0, m - 1) : rng.range(-1, m - 1);
             bool pass_out = G().isGlobal() || out != -1 || rng.coin();
-            p.opts = {s.pick({"-tol", "-tolerance"}), num17(tol), s.pick({"-rt", "-reftype"}), refname(rt)};
+            p.opts = {s.sp("-tolerance"), num17(tol), s.sp("-reftype"), refname(rt)};
             if (!float_exact(tol)) p.real_opts.push_back("tolerance");
-            if (pass_out){ p.opts.push_back(s.pick({"-rout", "-refout"})); p.opts.push_back(std::to_string(out)); }
-            if (!limits.empty()){ p.opts.push_back(s.pick({"-lf", "-levellimitsfile"})); p.opts.push_back(s.put(row_of_ints(limits), "limits")); }
+            if (pass_out){ p.opts.push_back(s.sp("-refout")); p.opts.push_back(std::to_string(out)); }
+            if (!limits.empty()){ p.opts.push_back(s.sp("-levellimitsfile")); p.opts.push_back(s.put(row_of_ints(limits), "limits")); }
             std::vector<double> scale;
             if (G().isLocalPolynomial() && rng.coin(0.12)){
                 // "one weight per active output (either 1 or getNumOutputs())", in the order of the loaded points
                 int act = (out == -1) ? m : 1, n = G().getNumLoaded();
                 scale.resize((size_t) n * (size_t) act);
                 for(auto &x : scale) x = rng.uni(0.5, 2.0);
-                p.opts.push_back(s.pick({"-vf", "-valsfile"})); p.opts.push_back(s.put(Mat(n, act, scale), "scale"));
+                p.opts.push_back(s.sp("-valsfile")); p.opts.push_back(s.put(Mat(n, act, scale), "scale"));
                 p.name += "-scaled";
             }
             p.api = [tol, rt, out, limits, scale, local](TasmanianSparseGrid &g, Out &o, bool as_float){
@@ -907,51 +939,51 @@ struct Gen{
         return p;
     }
     Plan cancelrefine(){
-        Plan p; p.name = "cancelrefine"; p.cmd = rng.coin() ? "-cancelrefine" : "-cr"; p.mutates = true;
+        Plan p; p.name = "cancelrefine"; p.cmd = s.sp("-cancelrefine"); p.mutates = true;
         // InterfaceMATLAB.md: tsgCancelRefine.m -> clearRefinement()/finishConstruction()
         p.api = [](TasmanianSparseGrid &g, Out&, bool){ g.clearRefinement(); if (g.isUsingConstruction()) g.finishConstruction(); };
         return p;
     }
     Plan mergerefine(){
-        Plan p; p.name = "mergerefine"; p.cmd = rng.coin() ? "-mergerefine" : "-mr"; p.mutates = true;
+        Plan p; p.name = "mergerefine"; p.cmd = s.sp("-mergerefine"); p.mutates = true;
         p.api = [](TasmanianSparseGrid &g, Out&, bool){ g.mergeRefinement(); };
         return p;
     }
     Plan update(){
-        Plan p; p.name = "makeupdate"; p.cmd = rng.coin() ? "-makeupdate" : "-mu"; p.mutates = true;
+        Plan p; p.name = "makeupdate"; p.cmd = s.sp("-makeupdate"); p.mutates = true;
         TypeDepth t = rng.pick(aniso_types);
         int depth = rng.range(1, 4);
         if (G().isGlobal() || G().isSequence()){ if (is_optimized_sequence(G().getRule())) depth = std::min(depth, 3); }
         std::vector<int> aw;
         if (rng.coin(0.4)){ aw.resize((size_t) G().getNumDimensions()); for(auto &w : aw) w = rng.range(1, 3); }
-        p.opts = {s.pick({"-dt", "-depth"}), std::to_string(depth), s.pick({"-tt", "-type"}), tname(t)};
-        if (!aw.empty()){ p.opts.push_back(s.pick({"-af", "-anisotropyfile"})); p.opts.push_back(s.put(row_of_ints(aw), "aniso")); }
+        p.opts = {s.sp("-depth"), std::to_string(depth), s.sp("-type"), tname(t)};
+        if (!aw.empty()){ p.opts.push_back(s.sp("-anisotropyfile")); p.opts.push_back(s.put(row_of_ints(aw), "aniso")); }
         if (rng.coin(0.25)){ p.out = out_dense; p.allow_print = false; p.name = "makeupdate-of"; } // help: "-outputfile or -print output the new points of the grid"
         p.api = [depth, t, aw](TasmanianSparseGrid &g, Out &o, bool){ g.updateGrid(depth, t, aw); o.m = points_matrix(g, g.getNeededPoints()); };
         return p;
     }
     Plan setconformal(){
-        Plan p; p.name = "setconformal"; p.cmd = rng.coin() ? "-setconformal" : "-sc"; p.mutates = true;
+        Plan p; p.name = "setconformal"; p.cmd = s.sp("-setconformal"); p.mutates = true;
         std::vector<int> tr((size_t) G().getNumDimensions()); for(auto &x : tr) x = rng.range(1, 6);
-        p.opts = {s.pick({"-ct", "-conformaltype"}), "asin", "-conformalfile", s.put(row_of_ints(tr), "conformal")};
+        p.opts = {s.sp("-conformaltype"), "asin", s.sp("-conformalfile"), s.put(row_of_ints(tr), "conformal")};
         p.api = [tr](TasmanianSparseGrid &g, Out&, bool){ g.setConformalTransformASIN(tr); };
         return p;
     }
     Plan getconstructpnts(){
-        Plan p; p.name = "getconstructpnts"; p.cmd = rng.coin() ? "-getconstructpnts" : "-gcp"; p.mutates = true; p.out = out_dense;
+        Plan p; p.name = "getconstructpnts"; p.cmd = s.sp("-getconstructpnts"); p.mutates = true; p.out = out_dense;
         int m = G().getNumOutputs();
         std::vector<int> limits; if (rng.coin(0.3)) limits = some_limits();
         if (aniso_family()){
             TypeDepth t = rng.pick(aniso_types);
-            p.opts = {s.pick({"-tt", "-type"}), tname(t)};
+            p.opts = {s.sp("-type"), tname(t)};
             if (rng.coin(0.4)){
                 std::vector<int> aw((size_t) G().getNumDimensions()); for(auto &w : aw) w = rng.range(1, 3);
-                p.opts.push_back(s.pick({"-af", "-anisotropyfile"})); p.opts.push_back(s.put(row_of_ints(aw), "aniso"));
+                p.opts.push_back(s.sp("-anisotropyfile")); p.opts.push_back(s.put(row_of_ints(aw), "aniso"));
                 p.api = [t, aw, limits](TasmanianSparseGrid &g, Out &o, bool){ if (!g.isUsingConstruction()) g.beginConstruction(); o.m = points_matrix(g, g.getCandidateConstructionPoints(t, aw, limits)); };
             }else{
                 int out = G().isGlobal() ? rng.range(0, m - 1) : rng.range(-1, m - 1);
                 bool pass_out = G().isGlobal() || out != -1 || rng.coin();
-                if (pass_out){ p.opts.push_back(s.pick({"-rout", "-refout"})); p.opts.push_back(std::to_string(out)); }
+                if (pass_out){ p.opts.push_back(s.sp("-refout")); p.opts.push_back(std::to_string(out)); }
                 p.api = [t, out, limits](TasmanianSparseGrid &g, Out &o, bool){ if (!g.isUsingConstruction()) g.beginConstruction(); o.m = points_matrix(g, g.getCandidateConstructionPoints(t, out, limits)); };
             }
         }else{
@@ -960,14 +992,14 @@ struct Gen{
             TypeRefinement rt = rng.pick(ref_types);
             int out = rng.range(-1, m - 1);
             bool pass_out = out != -1 || rng.coin();
-            p.opts = {s.pick({"-tol", "-tolerance"}), num17(tol), s.pick({"-rt", "-reftype"}), refname(rt)};
+            p.opts = {s.sp("-tolerance"), num17(tol), s.sp("-reftype"), refname(rt)};
             if (!float_exact(tol)) p.real_opts.push_back("tolerance");
-            if (pass_out){ p.opts.push_back(s.pick({"-rout", "-refout"})); p.opts.push_back(std::to_string(out)); }
+            if (pass_out){ p.opts.push_back(s.sp("-refout")); p.opts.push_back(std::to_string(out)); }
             p.api = [tol, rt, out, limits](TasmanianSparseGrid &g, Out &o, bool as_float){
                 if (!g.isUsingConstruction()) g.beginConstruction();
                 o.m = points_matrix(g, g.getCandidateConstructionPoints(fl(tol, as_float), rt, out, limits)); };
         }
-        if (!limits.empty()){ p.opts.push_back(s.pick({"-lf", "-levellimitsfile"})); p.opts.push_back(s.put(row_of_ints(limits), "limits")); }
+        if (!limits.empty()){ p.opts.push_back(s.sp("-levellimitsfile")); p.opts.push_back(s.put(row_of_ints(limits), "limits")); }
         return p;
     }
     Plan loadconstructed(){
@@ -982,8 +1014,8 @@ struct Gen{
         for(int i : idx) x.insert(x.end(), s.candidates.begin() + (long)((size_t) i * (size_t) d), s.candidates.begin() + (long)((size_t)(i + 1) * (size_t) d));
         gen_counter++;
         std::vector<double> y = model_vals(x, d, m, gen_counter, vmode);
-        Plan p; p.name = "loadconstructed"; p.cmd = rng.coin() ? "-loadconstructed" : "-lcp"; p.mutates = true;
-        p.opts = {s.pick({"-xf", "-xfile"}), s.put(Mat(k, d, x), "x"), s.pick({"-vf", "-valsfile"}), s.put(Mat(k, m, y), "vals")};
+        Plan p; p.name = "loadconstructed"; p.cmd = s.sp("-loadconstructed"); p.mutates = true;
+        p.opts = {s.sp("-xfile"), s.put(Mat(k, d, x), "x"), s.sp("-valsfile"), s.put(Mat(k, m, y), "vals")};
         p.api = [x, y](TasmanianSparseGrid &g, Out&, bool){ if (!g.isUsingConstruction()) g.beginConstruction(); g.loadConstructedPoints(x, y); };
         return p;
     }
@@ -1009,12 +1041,12 @@ struct Gen{
             add(0.5, [&]{ return gethsupport(); });
             add(0.4, [&]{ return getindexes(false); });
         }
-        if (N > 0) add(0.4, [&]{ return getindexes(true); });
+        if (N > 0 && g.isLocalPolynomial()) add(0.4, [&]{ return getindexes(true); });
         if (np > 0 && np <= 200){
             add(0.8, [&]{ return evallike(2); });
             if (!conformal_set) add(0.6, [&]{ return evallike(3); });
             add(0.8, [&]{ return evallike(4); });
-            if (!g.isFourier()) add(0.7, [&]{ return evallike(5); });
+            if (local) add(0.7, [&]{ return evallike(5); }); // "Local Polynomial and Wavelet grids"
         }
         if ((g.isGlobal() || g.isSequence()) && np > 0) add(0.5, [&]{ return getpoly(); });
         if (m > 0 && L > 0){
@@ -1036,7 +1068,8 @@ struct Gen{
             }
             if (N > 0 && L > 0){ add(0.7, [&]{ return cancelrefine(); }); add(0.7, [&]{ return mergerefine(); }); }
         }
-        if (!U && aniso_family() && nested() && may_grow) add(0.7, [&]{ return update(); });
+        // (an update of a custom-tabulated grid without loaded values re-reads the rule from a null file name: C07/C08's finding F-custom, kept out of these scripts)
+        if (!U && aniso_family() && nested() && may_grow && !(g.getRule() == rule_customtabulated && L == 0)) add(0.7, [&]{ return update(); });
         if (!U && !conformal_set && !g.isFourier() && !(g.isGlobal() && is_unbounded(g.getRule())) && N == 0 && rng.coin(0.3)) add(0.3, [&]{ return setconformal(); });
         // dynamic construction (never together with a conformal map: the inverse map is only accurate to 1e-12 and the node search does not terminate)
         if (m > 0 && !conformal_set && nested() && may_grow){
@@ -1064,8 +1097,8 @@ void exotic_script(Script &s, Gen &gen){
     { // values of the weight function
         auto pts = s.G.getNeededPoints(); std::vector<double> v(pts.size());
         for(size_t i=0; i<pts.size(); i++){ double x = pts[i]; v[i] = (wf == 0) ? 1.0 + x * x : (wf == 1) ? std::sin(3.0 * x) : std::cos(2.0 * x); }
-        Plan p; p.name = "loadvalues"; p.cmd = "-l"; p.mutates = true;
-        p.opts = {"-vf", s.put(Mat((long) pts.size(), 1, v), "vals")};
+        Plan p; p.name = "loadvalues"; p.cmd = s.sp("-loadvalues"); p.mutates = true;
+        p.opts = {s.sp("-valsfile"), s.put(Mat((long) pts.size(), 1, v), "vals")};
         p.api = [v](TasmanianSparseGrid &g, Out&, bool){ g.loadNeededValues(v); };
         s.exec(p); if (s.dead) return;
         symmetric = (wf != 1) && cf.ta.empty() && rng.coin();
@@ -1074,10 +1107,10 @@ void exotic_script(Script &s, Gen &gen){
     std::string desc = rng.coin() ? "verif exotic rule" : "exo";
     std::string tool_table = s.dir + "/out_" + std::to_string(s.step + 1);
     {
-        Plan p; p.name = "makeexoquad"; p.cmd = rng.coin() ? "-makeexoquad" : "-meq"; p.uses_grid = false; p.out = out_text_file;
-        p.opts = {s.pick({"-dt", "-depth"}), std::to_string(depth), "-shift", num17(shift), s.pick({"-wf", "-weightfile"}), s.gft, s.pick({"-desc", "-description"}), desc};
+        Plan p; p.name = "makeexoquad"; p.cmd = s.sp("-makeexoquad"); p.uses_grid = false; p.out = out_text_file;
+        p.opts = {s.sp("-depth"), std::to_string(depth), "-shift", num17(shift), s.sp("-weightfile"), s.gft, s.sp("-description"), desc};
         if (!float_exact(shift)) p.real_opts.push_back("shift");
-        if (symmetric) p.opts.push_back(s.pick({"-symm", "-symmetric"}));
+        if (symmetric) p.opts.push_back(s.sp("-symmetric"));
         std::string gfa = s.gfa; TasmanianSparseGrid const *G = &s.G;
         p.api = [depth, shift, desc, symmetric, G](TasmanianSparseGrid &, Out &o, bool as_float){
             auto ct = TasGrid::getExoticQuadrature(depth, fl(shift, as_float), *G, desc.c_str(), symmetric);
@@ -1115,6 +1148,7 @@ void mon_c16(CaseCtx &c, Rng &rng){
     rm_rf(s.dir);
     mkdir(s.dir.c_str(), 0755);
     s.gft = s.dir + "/grid_tool"; s.gfa = s.dir + "/grid_api";
+    s.help = &help_map(tool, s.dir);
     Gen gen(s, max_points);
     gen.vmode = rng.coin(0.75) ? 1 : 0;
     int nsteps = rng.range(3, 8);
@@ -1145,7 +1179,7 @@ void mon_c16(CaseCtx &c, Rng &rng){
         }
         if (!s.dead){
             Plan mk = gen.make_plan(cf);
-            if (cf.outs == 0) mk.name = "make-zero-outputs";
+            if (cf.outs == 0) mk.cls = "make-zero-outputs";
             s.exec(mk);
         }
         for(int i=0; i<nsteps && !s.dead && s.has_grid; i++){
